@@ -681,6 +681,60 @@ func (c *Ctx) c19Redefined() {
 	ask("total redefined as (k string, xs ...string)", "main.total", "xyz", goat.String("x"), goat.String("y"), goat.String("z"))
 }
 
+// c19YieldKeepsArgs: a native that yields (VM.Yield) before it reads its arguments still sees exactly the arguments
+// the script passed, whatever the host's yield hook computes (a script function with temporaries of its own, a native
+// hook that returns a value), for every args-slice form, also through VM.Call
+func (c *Ctx) c19YieldKeepsArgs() {
+	for _, hook := range []string{"script", "native", "default"} {
+		vm := goat.New()
+		if _, err := vm.Eval(fstest.MapFS{}, "main", "var hooks = 0\nfunc onYield() {\n\ta, b, c := 111, 222, 333\n\ts := []int{a, b, c, a + b + c}\n\thooks += len(s)\n}\n"); err != nil {
+			c.Rep.Violate(Violation{Kind: "oracle", Cut: "yield-keeps-args", Input: "hook definition", Impl: err.Error(), Oracle: "evaluates"})
+			return
+		}
+		switch hook {
+		case "script":
+			vm.Set("builtin.__yield", vm.Get("main.onYield"))
+		case "native":
+			vm.Set("builtin.__yield", goat.NewFunc(0, 1, func(v *goat.VM, args []goat.Value) []goat.Value {
+				return []goat.Value{goat.Int(777), goat.Int(888), goat.Int(999)}
+			}))
+		}
+		digits := func(args []goat.Value) int {
+			n := 0
+			for _, a := range args {
+				n = n*10 + a.Int()
+			}
+			return n
+		}
+		vm.Set("main.wait1", goat.NewFunc(3, 1, func(v *goat.VM, args []goat.Value) goat.Value { v.Yield(); return goat.Int(digits(args)) }))
+		vm.Set("main.waitM", goat.NewFunc(3, 2, func(v *goat.VM, args []goat.Value) []goat.Value {
+			v.Yield()
+			return []goat.Value{goat.Int(digits(args)), args[2]}
+		}))
+		vm.Set("main.waitV", goat.NewFunc(2, 1, func(v *goat.VM, args []goat.Value, vargs ...goat.Value) []goat.Value {
+			v.Yield()
+			return []goat.Value{goat.Int(digits(args)*1000 + digits(vargs))}
+		}))
+		seen0 := -1
+		vm.Set("main.wait0", goat.NewFunc(2, 0, func(v *goat.VM, args []goat.Value) { v.Yield(); seen0 = digits(args) }))
+		var out bytes.Buffer
+		vm2 := vm
+		_ = vm2
+		rets, err := vm.Eval(fstest.MapFS{}, "main", "a := wait1(7, 8, 9)\nb, c := waitM(1, 2, 3)\nd := waitV(4, 5, 6, 7)\nwait0(3, 4)\nx := 1000 + wait1(1, 2, 3)*2\n[]int{a, b, c, d, x}")
+		c.Rep.Oracle["yield-keeps-args"]++
+		got := fmt.Sprint(rets, err, seen0)
+		if want := "[[789 123 3 4567 1246]] <nil> 34"; got != want {
+			c.Rep.Violate(Violation{Kind: "oracle", Cut: "yield-keeps-args", Input: "natives of the forms N->1, N->M, variadic and N->0 call vm.Yield() before reading their arguments; yield hook: " + hook, Impl: got, Oracle: want})
+		}
+		r2, err := vm.Call("main.wait1", 1, goat.Int(4), goat.Int(5), goat.Int(6))
+		c.Rep.Oracle["yield-keeps-args"]++
+		if err != nil || len(r2) != 1 || r2[0].Int() != 456 {
+			c.Rep.Violate(Violation{Kind: "oracle", Cut: "yield-keeps-args", Input: "vm.Call(main.wait1, 4, 5, 6); yield hook: " + hook, Impl: fmt.Sprint(r2, err), Oracle: "[456]"})
+		}
+		_ = out
+	}
+}
+
 // c19HookErrors: a failure inside a host-supplied hook that a builtin calls back into (the yield hook behind
 // time.Sleep, VM.Yield from a native of the host) is a nested call: it surfaces as the error of the outer call
 func (c *Ctx) c19HookErrors() {
@@ -733,6 +787,7 @@ func runC19(c *Ctx) error {
 	c.c19Scripts(ns)
 	c.c19ZeroArity()
 	c.c19HookErrors()
+	c.c19YieldKeepsArgs()
 	c.c19Redefined()
 	c.c19Nils()
 	c.c19RoundTrips(nr)
